@@ -28,9 +28,9 @@ import itertools
 import re
 
 from .. import AnalysisError
-from ..flow import Flow, walk_no_nested
+from ..flow import Flow
 from ..report import Report
-from ..util import where, mwhere, norm, names_in, call_name, arg, assigned_value
+from ..util import where, norm, names_in, call_name, assigned_value
 from ..variants import V
 
 PID = 'C08'
@@ -253,7 +253,7 @@ class Eval:
         self.m = model
         self.strict = strict
         self.sinks = {}
-        self.problems = {}  # (func qname, norm(node)) -> (func, node, message)
+        self.problems = {}  # (func qname, norm(node), root) -> (func, node, message, root)
         self.assocs = []  # (func, node, position, table, how)
         self.idchecks = []  # (func, node, ok, message)
         self.allocs = []  # (func, call node, table sel, index sel, parent value, via)
@@ -267,7 +267,7 @@ class Eval:
 
     # ------------------------------------------------------------ recording
     def problem(self, f, node, msg):
-        self.problems.setdefault((f.qname, norm(node)), (f, node, msg))
+        self.problems.setdefault((f.qname, norm(node), self.root), (f, node, msg, self.root))
 
     def sink(self, f, node, kind, subject, pattern):
         s = Sink(f, node, kind, subject, pattern, tuple(self.ctx), self.root)
@@ -818,7 +818,7 @@ class Eval:
                     ksh = kv[1] if kv[0] == 'str' else as_shape(kv)
                     ints = [x for x in ksh if x[0] == 'F' and x[1] == 'INT']
                     parent = ints[0][2] if ints and ksh[0] == ints[0] else NONE
-                    self.allocs.append((f, e, sel, sel, parent, 'rpc'))
+                    self.allocs.append((f, e, sel, sel, parent, 'rpc', (f.qname, norm(e)[:90])))
                     out.append(('tuple', (BOOL, ('id', sel), UNK)))
             return out
         if not callee.module.name.startswith(SHELVE):
@@ -840,7 +840,7 @@ class Eval:
                     tv, iv = b.get(tp, UNK), b.get(ip, UNK)
                     pv = b.get(self.m.allocators[q].get('parent') or '', NONE)
                     self.allocs.append(
-                        (f, e, tv[1] if tv[0] == 'table' else None, iv[1] if iv[0] == 'index' else None, pv, 'direct')
+                        (f, e, tv[1] if tv[0] == 'table' else None, iv[1] if iv[0] == 'index' else None, pv, 'direct', self.ctx[0])
                     )
                 if is_method:
                     b = dict(b)
@@ -1667,7 +1667,7 @@ class _Alloc(Flow):
         return (self._mk(facts, min(ns, 3), min(na, 3), sk, ak, loc),)
 
     def on_call(self, c, st):
-        facts, ns, na, sk, ak, loc = st
+        facts, ns, na, sk, _ak, loc = st
         if isinstance(c.func, ast.Attribute) and isinstance(c.func.value, ast.Name) and c.func.attr in MUTATORS:
             who = c.func.value.id
             if who == self.ip and c.func.attr == 'append' and len(c.args) == 1 and isinstance(c.args[0], ast.Name):
@@ -1774,11 +1774,8 @@ def _rule1(ctx, rep, M):
                 r.fail(key, where(f, node), f'a catalogue table / index is {s["how"]}: {norm(node)[:90]}')
             elif s['kind'] == 'alloc':
                 callee = s['callee']
-                mp = M.mutated_params(callee)
-                tps = [p for p, evs in mp.items() if any(h in ('item store', 'augmented item store', 'item delete') for _n, h in evs)]
                 r.instance()
                 n_alloc_sites += 1
-                groups = {p: c for _x, c, p in s['args']}
                 tsel = [c for _x, c, p in s['args'] if c[0] == 'tables']
                 isel = [c for _x, c, p in s['args'] if c[0] == 'indices']
                 same = len(tsel) == 1 and len(isel) == 1 and (
@@ -1798,10 +1795,42 @@ def _rule1(ctx, rep, M):
                     f'{norm(node)[:100]} hands {callee.qname} a table and an index that are not the same catalogue member '
                     f'({[show_sel(c[1]) for c in tsel]} / {[show_sel(c[1]) for c in isel]}): ids are allocated against the wrong index',
                 )
-                del groups, tps
         if n_alloc_sites < 5:
             raise AnalysisError(f'only {n_alloc_sites} allocator call sites with DBI tables found (add, update x4, Worker.do x2 expected)')
-        # ---- (a) allocation discipline of every allocator
+        # ---- (a) allocation discipline of every allocator (pass-through wrappers are followed to the storing function)
+        todo = sorted(allocs.items())
+        allocs = {}
+        seen_w = set()
+        while todo:
+            q, (callee, tp, ip) = todo.pop(0)
+            if q in seen_w:
+                continue
+            seen_w.add(q)
+            mp = M.mutated_params(callee)
+            if any(h == 'item store' for _n, h in mp.get(tp, [])):
+                allocs[q] = (callee, tp, ip)
+                continue
+            rep.analysed(callee)
+            r.instance()
+            fwd = []
+            for n, how in mp.get(tp, []):
+                inner = prog.func_of(prog.callee(n, callee) or '') if isinstance(n, ast.Call) and how.startswith('passed to') else None
+                if inner is None:
+                    fwd = None
+                    break
+                b = {a.id: pn for pn, a in Model.match_args(inner, n) if isinstance(a, ast.Name)}
+                im = M.mutated_params(inner)
+                if b.get(tp) in im and b.get(ip) in im and b.get(tp) != b.get(ip):
+                    fwd.append((inner, b[tp], b[ip]))
+                else:
+                    fwd = None
+                    break
+            if not fwd:
+                r.fail(f'{q}:forwarding', where(callee), f'{q} mutates the catalogue table it receives in a way that is neither an item '
+                       f'store nor a plain hand-over of (table, index) to an allocator: not understood')
+                continue
+            r.ok(f'{q}:forwarding', 'hands its (table, index) pair on to ' + ', '.join(x[0].qname for x in fwd), where(callee))
+            todo += [(x[0].qname, x) for x in fwd]
         for q, (callee, tp, ip) in sorted(allocs.items()):
             rep.analysed(callee)
             r.instance()
@@ -2011,7 +2040,7 @@ def derive_grammar(M):
         pre, post = pre1, post0
     else:
         raise AnalysisError(f'{q}: cannot tell the parent prefix from the version suffix of a key')
-    both = shapes[(True, True)] if par == optional[0].arg else shapes[(True, True)]
+    both = shapes[(True, True)]
     if both != shape(*(pre + (fld('TXT', nm),) + post)):
         raise AnalysisError(f'{q}: key with parent and version is not <parent part><name><version part>: {show_shape(both)}')
     ok = (
@@ -2037,10 +2066,10 @@ def derive_chain(M):
     f = prog.func(SHELVE + '.update')
     E = Eval(prog, M, strict=False)
     E.run_root(f, root_binding(f))
-    M.chain_events = [a for a in E.allocs if a[0] is f]
+    M.chain_events = list(dict.fromkeys((a[2], a[3], a[4], a[5], a[6]) for a in E.allocs))
     M.chain_funcs = sorted(E.funcs_seen)
     par = {}
-    for _f, _call, tsel, _isel, pv, _via in M.chain_events:
+    for tsel, _isel, pv, _via, _site in M.chain_events:
         if tsel in (None, '?'):
             continue
         par.setdefault(tsel, set()).add(pv)
@@ -2232,7 +2261,7 @@ def _rule3(ctx, rep, M, E):
         'R-C08-3',
         'every selection of catalogue keys made for remove / reset / trace constrains whole fields only (delimiter anchored '
         'or equality of dissected fields) and pins the parent with an id of the parent table; dissect inverts construct',
-        floor=9,
+        floor=5,
         breaks="remove / reset / trace addressed to 'Algo' also touch or report the entries of 'Algorithm'",
     ) as r:
         r.instance()
@@ -2279,13 +2308,20 @@ def _rule3(ctx, rep, M, E):
             r.check(okk, key, where(s.func, s.node), detail + (f' [reached from {s.root} via {via}]' if via else ''),
                     f'{norm(s.node)[:80]} (reached from {s.root}' + (f' via {via}' if via else '') + f'): {detail}',
                     nontrivial=not trivial)
-        for (_q, _t), (f, node, msg) in sorted(E.problems.items()):
+        troubled = set()
+        for _k, (f, node, msg, root) in sorted(E.problems.items(), key=lambda kv: tuple(map(str, kv[0]))):
             r.instance()
-            r.fail(f'{f.qname}:{norm(node)[:100]}', where(f, node), msg)
+            troubled.add(root)
+            r.fail(f'{f.qname}:{norm(node)[:100]}<-{root}', where(f, node), msg + f' [reached from {root}]')
+        troubled |= {fd.key.split('<-')[1].split(':')[0] for fd in r.findings if '<-' in fd.key}
+        r.extra['selections_per_operation'] = dict(by_root)
         for f in roots:
-            if not by_root.get(f.qname):
-                r.fail(f'{f.qname}:no-recognised-selection', where(f),
-                       f'{f.name} is addressed by name but no anchored selection of catalogue keys was recognised on its behalf')
+            # floors per operation, confirmed by reading: remove selects algorithm, state vector and value names; reset a
+            # primary prefix and an algorithm name; trace an algorithm name
+            want = {'remove': 3, 'reset': 2, 'trace': 1}[f.name]
+            if by_root.get(f.qname, 0) < want and f.qname not in troubled:
+                raise AnalysisError(f'{f.qname}: only {by_root.get(f.qname, 0)} selection(s) of catalogue keys recognised (expected >= {want}) '
+                                    f'and nothing reported: the analysis no longer sees how {f.name} addresses entries by name')
         r.note('not decided: under-selection (an anchored pattern that misses a legitimate key form) and names that contain a delimiter')
 
 
@@ -2299,7 +2335,7 @@ def _rule5(ctx, rep, M, E3):
         'R-C08-5',
         'allocation chain task <- algorithm <- state vector <- value is identical in both branches of update, and every '
         'primary-key position / id indexes the index of its own table',
-        floor=20,
+        floor=30,
         breaks='a primary entry resolves to the wrong algorithm / state vector / value name (parent ids or key positions crossed)',
     ) as r:
         upd = prog.func(SHELVE + '.update')
@@ -2307,15 +2343,15 @@ def _rule5(ctx, rep, M, E3):
         for q in M.chain_funcs:
             rep.analysed(prog.funcs.get(q))
         by_via = {}
-        for f, call, tsel, isel, pv, via in M.chain_events:
+        for tsel, isel, pv, via, site in M.chain_events:
             r.instance()
-            key = f'{upd.qname}:{norm(call)[:110]}'
+            key = f'{upd.qname}:{site[1]}'
             if tsel in (None, '?') or tsel != isel:
-                r.fail(key, where(f, call), f'allocation {norm(call)[:90]} does not name one catalogue member statically')
+                r.fail(key, where(upd), f'allocation {site[1]} does not name one catalogue member statically')
                 continue
             by_via.setdefault(via, {})[tsel] = pv
             okp = pv == NONE or pv[0] == 'id'
-            r.check(okp, key, where(f, call), f'{tsel} allocated with parent {show_val(pv)}',
+            r.check(okp, key, where(upd), f'{tsel} allocated with parent {show_val(pv)}',
                     f'the parent handed to the allocation of a {tsel} entry is {show_val(pv)}, not an id returned by a previous allocation')
         if len(by_via) < 2:
             r.fail(f'{upd.qname}:branches', where(upd), f'update no longer allocates in both its direct and its reopened (RPC) branch: {sorted(by_via)}')
@@ -2486,14 +2522,15 @@ def _rule2(ctx, rep, M):
             if g.ifs:
                 return f'the run ids are filtered by {norm(g.ifs[0])[:60]}: ids stored under other keys are ignored'
             E = Eval(prog, M, strict=False)
-            it = E.ev(g.iter, frozenset(), f)
-            if it != [('listof', ('pkey',))]:
-                return f'{norm(g.iter)[:70]} does not enumerate the decoded keys of the whole primary table'
+            whole = {('listof', ('pkey',)), ('table', PRIME), ('keys', PRIME), ('items', PRIME)}
+            for it in E.ev(g.iter, frozenset(), f):
+                if it not in whole:
+                    return f'{norm(g.iter)[:70]} does not enumerate the (decoded) keys of the whole primary table'
+                for el in elem_of(it):
+                    for en in E.bind(g.target, el, frozenset()):
+                        if E.ev(x.elt, en, f) != [('pkpos', 0)]:
+                            return f'{norm(x.elt)} is not the run field (position 0) of the key'
             r.extra['next_source'] = norm(g.iter)
-            for en in E.bind(g.target, ('pkey',), frozenset()):
-                el = E.ev(x.elt, en, f)
-                if el != [('pkpos', 0)]:
-                    return f'{norm(x.elt)} is not the run field (position 0) of the key'
             return True
 
         def src_shelve(e, st):
